@@ -44,7 +44,9 @@ OPEN_TYPE_ber_get(const asn_codec_ctx_t *opt_codec_ctx,
     asn_type_selector_result_t selected;
     void *memb_ptr;   /* Pointer to the member */
     void **memb_ptr2; /* Pointer to that pointer */
+    const asn_TYPE_member_t *inner_elm; /* The selected alternative */
     void *inner_value;
+    void **inner_value2; /* What the decoder of the alternative gets */
     asn_dec_rval_t rv;
 
     if(!(elm->flags & ATF_OPEN_TYPE)) {
@@ -76,14 +78,19 @@ OPEN_TYPE_ber_get(const asn_codec_ctx_t *opt_codec_ctx,
         }
     }
 
-    inner_value =
-        (char *)*memb_ptr2
-        + elm->type->elements[selected.presence_index - 1].memb_offset;
+    inner_elm = &elm->type->elements[selected.presence_index - 1];
+    inner_value = (char *)*memb_ptr2 + inner_elm->memb_offset;
+    if(inner_elm->flags & ATF_POINTER) {
+        /* The alternative is a pointer: its decoder allocates the value */
+        inner_value2 = (void **)inner_value;
+    } else {
+        inner_value2 = &inner_value;
+    }
 
     ASN_DEBUG("presence %d\n", selected.presence_index);
 
     rv = selected.type_descriptor->op->ber_decoder(
-        opt_codec_ctx, selected.type_descriptor, &inner_value, ptr, size,
+        opt_codec_ctx, selected.type_descriptor, inner_value2, ptr, size,
         elm->tag_mode);
     ADVANCE(rv.consumed);
     rv.consumed = 0;
@@ -113,8 +120,12 @@ OPEN_TYPE_ber_get(const asn_codec_ctx_t *opt_codec_ctx,
             ASN_STRUCT_FREE(*selected.type_descriptor, inner_value);
             *memb_ptr2 = NULL;
         } else {
-            ASN_STRUCT_FREE_CONTENTS_ONLY(*selected.type_descriptor,
-                                          inner_value);
+            if(inner_elm->flags & ATF_POINTER) {
+                ASN_STRUCT_FREE(*selected.type_descriptor, *inner_value2);
+            } else {
+                ASN_STRUCT_FREE_CONTENTS_ONLY(*selected.type_descriptor,
+                                              inner_value);
+            }
             memset(*memb_ptr2, 0, specs->struct_size);
         }
     }
@@ -129,7 +140,9 @@ OPEN_TYPE_xer_get(const asn_codec_ctx_t *opt_codec_ctx,
     asn_type_selector_result_t selected;
     void *memb_ptr;   /* Pointer to the member */
     void **memb_ptr2; /* Pointer to that pointer */
+    const asn_TYPE_member_t *inner_elm; /* The selected alternative */
     void *inner_value;
+    void **inner_value2; /* What the decoder of the alternative gets */
     asn_dec_rval_t rv;
 
     int xer_context = 0;
@@ -201,12 +214,17 @@ OPEN_TYPE_xer_get(const asn_codec_ctx_t *opt_codec_ctx,
         ASN__DECODE_FAILED;
     }
 
-    inner_value =
-        (char *)*memb_ptr2
-        + elm->type->elements[selected.presence_index - 1].memb_offset;
+    inner_elm = &elm->type->elements[selected.presence_index - 1];
+    inner_value = (char *)*memb_ptr2 + inner_elm->memb_offset;
+    if(inner_elm->flags & ATF_POINTER) {
+        /* The alternative is a pointer: its decoder allocates the value */
+        inner_value2 = (void **)inner_value;
+    } else {
+        inner_value2 = &inner_value;
+    }
 
     rv = selected.type_descriptor->op->xer_decoder(
-        opt_codec_ctx, selected.type_descriptor, &inner_value, NULL, ptr, size);
+        opt_codec_ctx, selected.type_descriptor, inner_value2, NULL, ptr, size);
     ADVANCE(rv.consumed);
     rv.consumed = 0;
     switch(rv.code) {
@@ -235,8 +253,12 @@ OPEN_TYPE_xer_get(const asn_codec_ctx_t *opt_codec_ctx,
                 ASN_STRUCT_FREE(*selected.type_descriptor, inner_value);
                 *memb_ptr2 = NULL;
             } else {
-                ASN_STRUCT_FREE_CONTENTS_ONLY(*selected.type_descriptor,
-                                              inner_value);
+                if(inner_elm->flags & ATF_POINTER) {
+                    ASN_STRUCT_FREE(*selected.type_descriptor, *inner_value2);
+                } else {
+                    ASN_STRUCT_FREE_CONTENTS_ONLY(*selected.type_descriptor,
+                                                  inner_value);
+                }
                 memset(*memb_ptr2, 0, specs->struct_size);
             }
         }
@@ -292,7 +314,9 @@ OPEN_TYPE_uper_get(const asn_codec_ctx_t *opt_codec_ctx,
     asn_type_selector_result_t selected;
     void *memb_ptr;   /* Pointer to the member */
     void **memb_ptr2; /* Pointer to that pointer */
+    const asn_TYPE_member_t *inner_elm; /* The selected alternative */
     void *inner_value;
+    void **inner_value2; /* What the decoder of the alternative gets */
     asn_dec_rval_t rv;
 
     if(!(elm->flags & ATF_OPEN_TYPE)) {
@@ -326,12 +350,17 @@ OPEN_TYPE_uper_get(const asn_codec_ctx_t *opt_codec_ctx,
         }
     }
 
-    inner_value =
-        (char *)*memb_ptr2
-        + elm->type->elements[selected.presence_index - 1].memb_offset;
+    inner_elm = &elm->type->elements[selected.presence_index - 1];
+    inner_value = (char *)*memb_ptr2 + inner_elm->memb_offset;
+    if(inner_elm->flags & ATF_POINTER) {
+        /* The alternative is a pointer: its decoder allocates the value */
+        inner_value2 = (void **)inner_value;
+    } else {
+        inner_value2 = &inner_value;
+    }
 
     rv = uper_open_type_get(opt_codec_ctx, selected.type_descriptor, NULL,
-                            &inner_value, pd);
+                            inner_value2, pd);
     switch(rv.code) {
     case RC_OK:
         if(CHOICE_variant_set_presence(elm->type, *memb_ptr2,
@@ -351,8 +380,12 @@ OPEN_TYPE_uper_get(const asn_codec_ctx_t *opt_codec_ctx,
                 ASN_STRUCT_FREE(*selected.type_descriptor, inner_value);
                 *memb_ptr2 = NULL;
             } else {
-                ASN_STRUCT_FREE_CONTENTS_ONLY(*selected.type_descriptor,
-                                              inner_value);
+                if(inner_elm->flags & ATF_POINTER) {
+                    ASN_STRUCT_FREE(*selected.type_descriptor, *inner_value2);
+                } else {
+                    ASN_STRUCT_FREE_CONTENTS_ONLY(*selected.type_descriptor,
+                                                  inner_value);
+                }
                 memset(*memb_ptr2, 0, specs->struct_size);
             }
         }
